@@ -249,6 +249,9 @@ HARNESSES = [
             required_witnesses=("overspend_reachable_when_allowed",)),
 ]
 
+from harness import density as _density  # noqa: E402
+HARNESSES = HARNESSES + _density.harnesses_c04()
+
 BOUNDS = dict(quick="one query+update step on a chunk of <= 3 instances (Split: <= 2) from ANY state satisfying the invariant "
                     "(arbitrary history / chunking), and from a fresh object; w in {1,3,100}; budget symbolic in (0,1]",
               thorough="chunks <= 5 (Split <= 4); w in {1,2,3,10,100}",
